@@ -178,3 +178,45 @@ func VerifC12Keys() {
 	vndObserve("n", uint64(n))
 	vndObserve("count", uint64(c.Count()))
 }
+
+func init() { vndRegister("VerifC12RacingUpserts", VerifC12RacingUpserts) }
+
+// VerifC12RacingUpserts (C12-H2): two goroutines upsert / insert the SAME absent key, switching
+// between the existence check and the insert (yield point 9) and at the commit-protocol points.
+// At most one live row may hold the key afterwards, and the key must resolve to it.
+func VerifC12RacingUpserts() {
+	c := NewCollection(Options{Capacity: vndParam("cap")})
+	c.CreateColumn("k", ForKey())
+	c.CreateColumn("b", ForInt64())
+	var errs [2]error
+	var t [2]int
+	for i := 0; i < 2; i++ {
+		i := i
+		useInsert := vndChoice("insert", 2) == 1
+		t[i] = vndGo(func() {
+			set := func(r Row) error { r.SetInt64("b", int64(10+i)); return nil }
+			if useInsert {
+				errs[i] = c.InsertKey("a", set)
+			} else {
+				errs[i] = c.UpsertKey("a", set)
+			}
+		})
+	}
+	vndJoin(t[0])
+	vndJoin(t[1])
+	// KF-key-check-then-act (racing form): both goroutines may pass the existence check before
+	// either commits
+	vndKnown("KF-key-check-then-act", true)
+	n := 0
+	c.Query(func(txn *Txn) error {
+		return txn.Range(func(idx uint32) {
+			if k, ok := txn.Key().Get(); ok && k == "a" {
+				n++
+			}
+		})
+	})
+	vndAssert(n == 1, "racing upserts/inserts of one key left a different number of live rows than one")
+	vndAssert(c.Count() == 1, "Count after racing upserts of one key")
+	vndAssert(c.QueryKey("a", func(r Row) error { return nil }) == nil, "the key does not resolve")
+	vndObserve("n", uint64(n))
+}
